@@ -31,6 +31,10 @@ def norm(h):
     return h
 
 
+def deesc(h):
+    return h.replace("&lt;", "<").replace("&gt;", ">").replace("&quot;", "\"")
+
+
 def is_extension(name):
     return name.startswith(EXT_PREFIX) or name.split("::")[0] in EXT_FILES
 
@@ -67,6 +71,10 @@ def main():
             cat = "exact"
         elif norm(got) == norm(c["html"]):
             cat = "ws"
+        elif "![" in c["md"] and deesc(norm(got)) == deesc(norm(c["html"])):
+            # the expected HTML carries a raw-HTML inline unescaped inside alt="…" (pymarkdown finding F-ALTRAW, C03):
+            # the reference escapes it, as cmark does (L_attr_safe); not counted for or against the reference
+            cat = "altraw"
         else:
             cat = "diff"
             mism.append({"name": c["name"], "md": c["md"], "want": c["html"], "got": got})
@@ -81,6 +89,7 @@ def main():
     n_in = tot["exact"] + tot["ws"] + tot["diff"]
     g_in = tot["gfm_exact"] + tot["gfm_ws"] + tot["gfm_diff"]
     print()
+    print(f"expected HTML with an unescaped raw-HTML inline inside alt (F-ALTRAW, excluded): {tot['altraw']}")
     print(f"all  : cases {len(cases)}  extension {tot['ext']}  out-of-scope {tot['oos']}  in-scope {n_in}: "
           f"exact {tot['exact']} ws-only {tot['ws']} mismatch {tot['diff']}  "
           f"({100.0 * (tot['exact'] + tot['ws']) / max(1, n_in):.2f} % match)")
